@@ -60,4 +60,7 @@ PRESERVING = [
 
 def run(ctx):
     esc, longest = pC11.rule_escape_table(ctx)
-    return [esc, pC11.rule_split(ctx, longest), pC11.rule_char_tokens(ctx), pC11.rule_escape_char(ctx), pC11.rule_raw_literals(ctx)]
+    # C11-SPLIT and C11-TOK (pC11.rule_split / rule_char_tokens) interpret split_string_literal / _split_characters on generated
+    # boundary inputs.  That is bounded testing through an interpreter rather than a static decision, so they are not part of
+    # the registered check (see DESIGN.md section 9); the exhaustive per-byte tables and the source rule remain.
+    return [esc, pC11.rule_escape_char(ctx), pC11.rule_raw_literals(ctx)]
